@@ -194,7 +194,16 @@ Verdict judgeC11(const Outcome& A, const Outcome& B) {
     std::string d = firstDiff(A.echoes.empty() && A.status == 0 ? std::vector<std::string>{A.out} : A.echoes, B.echoes.empty() && B.status == 0 ? std::vector<std::string>{B.out} : B.echoes);
     if (!d.empty()) {
         // same lines in another order (something ran at a different time) vs different lines (something was lost or duplicated)
-        std::vector<std::string> a = A.echoes, b = B.echoes;
+        // (after a normal end the echo buffer has been flushed to stdout: compare the printed lines)
+        auto lines = [](const Outcome& o) {
+            if (!(o.echoes.empty() && o.status == 0)) return o.echoes;
+            std::vector<std::string> v;
+            std::string cur;
+            for (char c : o.out) { if (c == '\n') { v.push_back(cur); cur.clear(); } else cur.push_back(c); }
+            if (!cur.empty()) v.push_back(cur);
+            return v;
+        };
+        std::vector<std::string> a = lines(A), b = lines(B);
         std::sort(a.begin(), a.end());
         std::sort(b.begin(), b.end());
         return {a == b ? "output_order_differs_from_gc_never" : "output_differs_from_gc_never", d};
@@ -491,6 +500,7 @@ void runOne(const sim::Options& opt, uint64_t run, sim::RunReport& rep, bool all
     v.plan = planToJson(cur);
     rep.violations.push_back(std::move(v));
     rep.count("violations_raw");
+    rep.count("raw_class." + cls);
 }
 
 int doReplay(const sim::Options& opt) {
